@@ -33,6 +33,9 @@ PROPS = {
         "runs": [
             {"sub": "ring", "quick": ["--seed", "{seed}", "--cases", 3000, "--max-ops", 40, "--tag-heavy", 1],
              "thorough": ["--seed", "{seed}", "--cases", 200000, "--max-ops", 60, "--tag-heavy", 1]},
+            # two free-running threads, every commit tagged: each tag must reach the reader exactly once, on its sample
+            {"sub": "conc", "quick": ["--seed", "{seed}", "--cases", 0, "--stress", 0, "--tag-stress", 6, "--tag-stress-total", 400000],
+             "thorough": ["--seed", "{seed}", "--cases", 0, "--stress", 0, "--tag-stress", 60, "--tag-stress-total", 3000000]},
         ],
         "rule": "as C01 with 0..5 tags per commit clustered on the first/last sample of the commit, commits straddling the "
                 "wrap point, partial consumes, consume(0), full consumes. distinct = distinct request line.",
@@ -48,9 +51,9 @@ PROPS = {
                               "c03_sections_as_modelled"],
         "runs": [
             {"sub": "conc", "quick": ["--seed", "{seed}", "--cases", 2000, "--max-steps", 60, "--stress", 4,
-                                      "--stress-total", 200000],
+                                      "--stress-total", 200000, "--tag-stress", 3, "--tag-stress-total", 300000],
              "thorough": ["--seed", "{seed}", "--cases", 100000, "--max-steps", 120, "--stress", 40,
-                          "--stress-total", 2000000]},
+                          "--stress-total", 2000000, "--tag-stress", 30, "--tag-stress-total", 3000000]},
         ],
         "rule": "random interleavings of producer steps (acquire, store cell i, commit n) and consumer steps (acquire, load "
                 "cell j, consume m) with both windows held across the other side's steps, pre-advanced to the wrap point; "
@@ -240,7 +243,7 @@ PROPS = {
     },
     "C10": {
         "required_theorems": ["c10_samplewise", "c10_nrzi", "c10_nrzi_xor_tee_delay", "c10_skip", "c10_delay", "c10_rtlsdr",
-                              "c10_s2pdu", "c10_resampler"],
+                              "c10_s2pdu", "c10_resampler", "c10_v2s", "c10_v2s_call", "c10_constant_source"],
         "runs": [
             {"sub": "blocks", "quick": ["--seed", "{seed}", "--set", "modelled", "--cases", 1600, "--steps", 30],
              "thorough": ["--seed", "{seed}", "--set", "modelled", "--cases", 80000, "--steps", 60]},
@@ -343,6 +346,9 @@ PROPS = {
         "runs": [
             {"sub": "sources", "quick": ["--seed", "{seed}", "--cases", 400, "--files", 80, "--depth", 6],
              "thorough": ["--seed", "{seed}", "--cases", 20000, "--files", 3000, "--depth", 8], "timeout": 20000},
+            # FileSource on a named pipe written in pieces that end inside samples: exactly the data, once, then EOF
+            {"sub": "bytes", "quick": ["--seed", "{seed}", "--what", "fifo", "--cases", 150],
+             "thorough": ["--seed", "{seed}", "--what", "fifo", "--cases", 6000], "timeout": 20000},
         ],
         "rule": "Repeat API: every call sequence over {again, done, count} to the given depth from finite(0..3) and infinite "
                 "(exhaustive); VectorSource: data length 0..3000 x repeat {0,1,2,3,inf} x random work/drain schedules through a "
@@ -432,7 +438,7 @@ PROPS = {
     },
     "C14": {
         "required_theorems": ["c14_parse_serialize", "c14_reassemble", "c14_segmentation_independent", "c14_file_roundtrip",
-                              "c14_au_roundtrip", "c14_au_block_any_chunking", "c14_au_stream_roundtrip", "c14_sigmf_order", "c14_sigmf_lookup"],
+                              "c14_au_roundtrip", "c14_au_block_any_chunking", "c14_au_stream_roundtrip", "c14_sigmf_order", "c14_sigmf_lookup", "c14_au_encode_block_any_chunking"],
         "runs": [
             {"sub": "bytes", "quick": ["--seed", "{seed}", "--cases", 20],
              "thorough": ["--seed", "{seed}", "--cases", 1500], "timeout": 40000},
